@@ -13,7 +13,8 @@ class ProgGen:
     def __init__(self, rng: random.Random, *, max_nodes: int = 10, max_depth: int = 4, max_fan: int = 4,
                  p_await: float = 0.35, p_fail: float = 0.0, p_timeout: float = 0.0, p_burst: float = 0.0,
                  p_stuck: float = 0.08, p_factory: float = 0.15, p_opt: float = 0.1, p_delay_pub: float = 0.0, min_nodes: int = 1,
-                 p_act_await: float = 0.2) -> None:
+                 p_act_await: float = 0.2, p_overlap: float = 0.1,
+                 p_busy: float = 0.0) -> None:
         self.rng = rng
         self.max_nodes = max_nodes
         self.max_depth = max_depth
@@ -28,9 +29,12 @@ class ProgGen:
         self.p_delay_pub = p_delay_pub
         self.min_nodes = min_nodes
         self.p_act_await = p_act_await
+        self.p_overlap = p_overlap
+        self.p_busy = p_busy
         self.prog: list[dict[str, Any]] = []
         self.keys: list[tuple[int, str, int]] = []     # (ty, final name, publisher)
         self.used: set[tuple[int, str]] = set()
+        self.slow_keys: set[tuple[int, str]] = set()
         self.n_res = 0
         self.n_td = 0
 
@@ -67,7 +71,7 @@ class ProgGen:
     def final_name(self, spec: dict[str, Any], phase: str, name: str) -> str:
         return spec["dflt"] if name == "default" and phase == "start" else name
 
-    def gen_publish(self, i: int, phase: str) -> dict[str, Any] | None:
+    def gen_publish(self, i: int, phase: str, earlier: list[dict[str, Any]] | None = None) -> dict[str, Any] | None:
         rng = self.rng
         spec = self.prog[i]
         ty = rng.randrange(NT)
@@ -77,10 +81,26 @@ class ProgGen:
             name = f"r{self.n_res}"
             fin = name
         self.n_res += 1
+        if rng.random() < self.p_factory:
+            a: dict[str, Any] = {"a": "publishFactory", "ty": ty, "name": name, "fid": self.n_res}
+            if rng.random() < 0.3:
+                a["slow"] = rng.choice([1, 2, 4])       # an asynchronous factory that takes this many ticks
+            # a factory for two types, one of which is already taken (under the same name) by a resource
+            # this component published earlier in the same body
+            plain = [e for e in (earlier or []) if e["a"] == "publish" and e["name"] != "default"]
+            if plain and rng.random() < 0.5:
+                e = rng.choice(plain)
+                if e["ty"] != ty and (ty, e["name"]) not in self.used and not any(
+                        x["a"] == "publishFactory" and x["name"] == e["name"] for x in earlier or []):
+                    a["name"], a["ty2"] = e["name"], e["ty"]
+                    fin = e["name"]
+            self.used.add((ty, fin))
+            self.keys.append((ty, fin, i))
+            if a.get("slow"):
+                self.slow_keys.add((ty, fin))
+            return a
         self.used.add((ty, fin))
         self.keys.append((ty, fin, i))
-        if rng.random() < self.p_factory:
-            return {"a": "publishFactory", "ty": ty, "name": name, "fid": self.n_res}
         a = {"a": "publish", "ty": ty, "name": name, "v": self.n_res}
         if rng.random() < 0.25:
             self.n_td += 1
@@ -97,7 +117,7 @@ class ProgGen:
                 for _ in range(rng.randint(0, 4)):
                     r = rng.random()
                     if r < 0.4:
-                        a = self.gen_publish(i, phase)
+                        a = self.gen_publish(i, phase, acts)
                         if a:
                             if rng.random() < self.p_delay_pub:
                                 acts.append({"a": "tick", "d": rng.choice([1, 2, 3, 5])})
@@ -127,11 +147,22 @@ class ProgGen:
                         ty, name, _ = rng.choice(others)
                     else:
                         ty, name = rng.randrange(NT), "nowhere"
-                    if rng.random() < self.p_opt:
+                    if rng.random() < self.p_opt and (ty, name) not in self.slow_keys:
+                        # (an optional lookup in the very instant a slow factory is published may or may not
+                        # run it: a tie that changes every later time - not generated)
                         out.append({"a": "awaitOpt", "ty": ty, "name": name})
                     else:
                         out.append({"a": "await", "ty": ty, "name": name})
                 spec[phase] = out
+
+    def below(self, x: int, anc: int) -> bool:
+        """Is component x a descendant of component anc? (A component's start() runs after its whole subtree has
+        started: a descendant waiting for what start() publishes is a cycle.)"""
+        while x is not None:
+            x = self.prog[x]["parent"]
+            if x == anc:
+                return True
+        return False
 
     def burst(self) -> None:
         """The D6 class: one component publishes many unrelated resources and then the wanted one
@@ -141,6 +172,8 @@ class ProgGen:
         if len(cands) < 2:
             return
         w, p = rng.sample(cands, 2)
+        if self.below(w, p):
+            return
         n = rng.choice([10, 49, 50, 51, 52, 60, 120])
         ty = rng.randrange(NT)
         target = f"target{self.n_res}"
@@ -150,8 +183,71 @@ class ProgGen:
             acts.append({"a": "publish", "ty": rng.randrange(NT), "name": f"b{self.n_res}", "v": self.n_res})
         self.n_res += 1
         acts.append({"a": "publish", "ty": ty, "name": target, "v": self.n_res})
+        others = [c for c in cands if c not in (w, p) and not self.below(c, p)]
+        if others and rng.random() < 0.6:
+            # a third component is waiting too, for something published only later: its queue is full
+            # while the wanted resource is announced
+            w0 = rng.choice(others)
+            self.n_res += 1
+            late = f"late{self.n_res}"
+            acts += [{"a": "tick", "d": 1}, {"a": "publish", "ty": ty, "name": late, "v": self.n_res}]
+            self.prog[w0]["start"] = [{"a": "await", "ty": ty, "name": late, "keep": True}] + self.prog[w0]["start"]
         self.prog[p]["start"] = self.prog[p]["start"] + acts
-        self.prog[w]["start"] = [{"a": "await", "ty": ty, "name": target}] + self.prog[w]["start"]
+        self.prog[w]["start"] = [{"a": "await", "ty": ty, "name": target, "keep": True}] + self.prog[w]["start"]
+
+    def leaf(self, start: list[dict[str, Any]]) -> int:
+        """A new leaf component directly under the root, without prepare()."""
+        i = len(self.prog)
+        self.prog.append({"path": f"z{i}", "parent": 0, "cls": i, "ctorFails": False, "dflt": "default",
+                          "prepare": None, "start": start, "children": []})
+        self.prog[0]["children"].append(i)
+        return i
+
+    def busy(self) -> None:
+        """A waiter that is busy inside a slow asynchronous factory does not drain its event queue; more than
+        50 publications arrive meanwhile (in several atomic sections); then, in a section of its own, the
+        resource another waiter - which does keep up - is waiting for. Three extra leaves under the root."""
+        rng = self.rng
+        ty, ty2 = rng.randrange(NT), rng.randrange(NT)
+        self.n_res += 1
+        slowkey, target = f"slow{self.n_res}", f"wanted{self.n_res}"
+        acts = [{"a": "tick", "d": 1}, {"a": "publishFactory", "ty": ty, "name": slowkey, "fid": self.n_res,
+                                        "slow": rng.choice([6, 10])}]
+        for k in rng.choice([[30, 30], [49, 2], [20, 20, 20], [49], [50]]):
+            acts.append({"a": "tick", "d": 1})
+            for _ in range(k):
+                self.n_res += 1
+                acts.append({"a": "publish", "ty": rng.randrange(NT), "name": f"x{self.n_res}", "v": self.n_res})
+        self.n_res += 1
+        acts += [{"a": "tick", "d": 1}, {"a": "publish", "ty": ty2, "name": target, "v": self.n_res}]
+        self.used.update({(ty, slowkey), (ty2, target)})
+        order = [[{"a": "await", "ty": ty, "name": slowkey, "keep": True}],
+                 [{"a": "await", "ty": ty2, "name": target, "keep": True}]]
+        if rng.random() < 0.25:
+            order.reverse()
+        for st in order:
+            self.leaf(st)
+        self.leaf(acts)
+
+    def overlap(self) -> None:
+        """A sibling already waits for (T, n) when a component publishes a resource under (T2, n) and then a
+        factory for both T and T2 under n, with nothing else published afterwards."""
+        rng = self.rng
+        cands = [i for i, s in enumerate(self.prog) if s["start"] is not None and s["parent"] is not None]
+        if len(cands) < 2:
+            return
+        w, p = rng.sample(cands, 2)
+        if self.below(w, p):
+            return
+        ty, ty2 = rng.sample(range(NT), 2)
+        name = f"ov{self.n_res}"
+        self.n_res += 2
+        self.used.update({(ty, name), (ty2, name)})
+        acts = [{"a": "tick", "d": rng.choice([1, 2, 3])},
+                {"a": "publish", "ty": ty2, "name": name, "v": self.n_res - 1},
+                {"a": "publishFactory", "ty": ty, "name": name, "fid": self.n_res, "ty2": ty2}]
+        self.prog[p]["start"] = self.prog[p]["start"] + acts
+        self.prog[w]["start"] = [{"a": "await", "ty": ty, "name": name, "keep": True}] + self.prog[w]["start"]
 
     def inject_fault(self) -> None:
         rng = self.rng
@@ -175,12 +271,29 @@ class ProgGen:
         self.scripts()
         if rng.random() < self.p_burst:
             self.burst()
+        if rng.random() < self.p_overlap:
+            self.overlap()
+        if rng.random() < self.p_busy:
+            self.busy()
         if rng.random() < self.p_fail:
             self.inject_fault()
         timeout = 10.0 ** 6
         if rng.random() < self.p_timeout:
             timeout = rng.randint(0, 14) + 0.5 if rng.random() < 0.85 else 0.0
         return {"kind": "startup", "prog": self.prog, "timeout": timeout}
+
+
+def valid_prog(prog: list[dict[str, Any]]) -> bool:
+    """A two-type factory needs the resource that occupies its second type, published earlier in the same body
+    (used by the shrinker)."""
+    for spec in prog:
+        for ph in ("prepare", "start"):
+            acts = spec[ph] or []
+            for n, a in enumerate(acts):
+                if a["a"] == "publishFactory" and "ty2" in a:
+                    if not any(b["a"] == "publish" and b["ty"] == a["ty2"] and b["name"] == a["name"] for b in acts[:n]):
+                        return False
+    return True
 
 
 def make_completable(case: dict[str, Any], rng: random.Random, run_reference: Any, max_tries: int = 12) -> dict[str, Any]:
@@ -191,7 +304,7 @@ def make_completable(case: dict[str, Any], rng: random.Random, run_reference: An
         if ref["outcome"]["k"] != "timeout":
             return case
         awaits = [(i, ph, n) for i, s in enumerate(case["prog"]) for ph in ("prepare", "start") if s[ph]
-                  for n, a in enumerate(s[ph]) if a["a"] == "await"]
+                  for n, a in enumerate(s[ph]) if a["a"] == "await" and not a.get("keep")]
         if not awaits:
             return case
         for i, ph, n in rng.sample(awaits, max(1, len(awaits) // 3)):
